@@ -86,5 +86,7 @@ def age_tree(root, seconds_old, only=None):
     for r, _d, fs in os.walk(root):
         for f in fs:
             p = os.path.join(r, f)
+            if os.path.islink(p):
+                continue  # never touch what a symlink points at
             if only is None or only(os.path.relpath(p, root)):
                 set_age(p, seconds_old)
